@@ -234,6 +234,19 @@ func ServerKeyExchangeCurve(body []byte, psk bool) (uint16, bool) {
 	return uint16(c), !r.err
 }
 
+// ServerKeyExchangeScheme extracts the (hash, signature) pair of a DTLS 1.2 ECDHE ServerKeyExchange.
+func ServerKeyExchangeScheme(body []byte) (uint16, bool) {
+	r := &rd{b: body}
+	if r.u8() != 3 { // named_curve
+		return 0, false
+	}
+	_ = r.u16()
+	_ = r.vec8() // public key
+	v := r.u16()
+
+	return uint16(v), !r.err
+}
+
 // TranscriptForm renders a message the way DTLS feeds it to the handshake hash:
 // as if it had been sent in a single fragment (RFC 6347 4.2.6).
 func (m *HsMsg) TranscriptForm() []byte {
